@@ -472,3 +472,15 @@ M("opc2b-except-narrow", "C08", LL, "    except (ValueError, IndexError):\n     
 M("reg5-hide-line-default", "C12", CU, "    target: Any = None,\n    *inner_names: str,\n    hide: bool = False,\n    hide_line: bool = False,", "    target: Any = None,\n    *inner_names: str,\n    hide: bool = False,\n    hide_line: bool = True,", "REG-5")
 M("reg4-register-returns-none", "C12", CD, "            registry[actual_code] = func\n            return func", "            registry[actual_code] = func", "REG-4")
 M("reg4-trailing-first", "C12", CD, "                func = cast(Callable[..., Any], nested_names[-1])\n                nested_names = nested_names[:-1]", "                func = cast(Callable[..., Any], nested_names[-1])\n                nested_names = nested_names[:-2]", "REG-4")
+
+# ---------------------------------------------------------------- OPC-6 (exit-call templates)
+M("opc6-window-guard-9", "C02", LL, "        if offs < 8 or code[offs - 6 : offs + 2 : 2] != bytes(", "        if offs < 9 or code[offs - 6 : offs + 2 : 2] != bytes(", "OPC-6")
+M("opc6-window-lower", "C02", LL, "        if offs < 8 or code[offs - 6 : offs + 2 : 2] != bytes(", "        if offs < 8 or code[offs - 5 : offs + 2 : 2] != bytes(", ["OPC-6"], accept_analysis_error=True)
+M("opc6-window-opcodes", "C02", LL, '[op["LOAD_CONST"], op["DUP_TOP"], op["DUP_TOP"], op["CALL_FUNCTION"]]', '[op["LOAD_CONST"], op["DUP_TOP"], op["CALL_FUNCTION"]]', "OPC-6")
+M("opc6-step-back-7", "C02", LL, "        # Backtrack from CALL_FUNCTION to the preceding POP_BLOCK\n        offs -= 8", "        # Backtrack from CALL_FUNCTION to the preceding POP_BLOCK\n        offs -= 6", "OPC-6")
+M("opc6-rot-two-dropped", "C02", LL, '        while offs and code[offs] == op["EXTENDED_ARG"]:\n            offs -= 2\n        if offs and code[offs] == op["ROT_TWO"]:\n            offs -= 2\n    else:', '        while offs and code[offs] == op["EXTENDED_ARG"]:\n            offs -= 2\n    else:', "OPC-6")
+M("opc6-range-2", "C02", LL, "        for _ in range(3):\n            if not backtrack_over_load_none():", "        for _ in range(2):\n            if not backtrack_over_load_none():", "OPC-6")
+M("opc6-call-arg-3", "C02", LL, 'if code[offs : offs + 2] != bytes([op["CALL"], 2]):', 'if code[offs : offs + 2] != bytes([op["CALL"], 3]):', "OPC-6")
+M("opc6-get-awaitable-arg", "C02", LL, "sys.version_info >= (3, 11) and code[offs + 1] != 2", "sys.version_info >= (3, 11) and code[offs + 1] != 1", "OPC-6")
+M("opc6-get-awaitable-310", "C02", LL, "sys.version_info >= (3, 11) and code[offs + 1] != 2", "sys.version_info >= (3, 10) and code[offs + 1] != 2", "OPC-6")
+M("opc6-swap-dropped", "C02", LL, 'end == offs - 2 and code[offs] in (op["SWAP"], op["NOP"])', 'end == offs - 2 and code[offs] in (op["NOP"],)', ["OPC-6"], accept_analysis_error=True)
